@@ -179,7 +179,7 @@ pub fn eval(c: &TCase) -> Eval {
     let imsg = json!({"admin": if c.admin_explicit { Some(init_admin.clone()) } else { None }, "trader": if c.trader_explicit { Some(init_trader.clone()) } else { None }, "allowed_swap_routes": routes_json(&c.routes)});
     let r = w.tx_instantiate(Which::Treasury, &deployer, &imsg.to_string());
     if !r.ok {
-        viol.push(Violation { prop: "HARNESS", clause: "boot", step: 0, msg: format!("treasury instantiate failed: {}", r.err) });
+        viol.push(Violation { stop: true, prop: "HARNESS", clause: "boot", step: 0, msg: format!("treasury instantiate failed: {}", r.err) });
     }
     let mut m = TModel { admin: init_admin, nominee: None, trader: init_trader, routes: c.routes.clone(), former: vec![] };
     let receivers: Vec<String> = vec![
@@ -220,7 +220,7 @@ pub fn eval(c: &TCase) -> Eval {
             break;
         }
         ev.stats.ops += 1;
-        let mut v = |prop: &'static str, clause: &'static str, msg: String| viol.push(Violation { prop, clause, step, msg });
+        let mut v = |prop: &'static str, clause: &'static str, msg: String| viol.push(Violation { prop, clause, step, msg, stop: true });
         match op {
             TOp::Advance(s) => w.advance((*s).max(1)),
             TOp::ToMinTime(d) => {
@@ -445,25 +445,25 @@ pub fn eval(c: &TCase) -> Eval {
         while seen_panics < w.panics.len() {
             let p = &w.panics[seen_panics];
             seen_panics += 1;
-            viol.push(Violation { prop: "C16", clause: "panic", step, msg: format!("{}::{} panicked: {} | input: {}", p.contract, p.entry, p.msg, p.input) });
+            viol.push(Violation { stop: true, prop: "C16", clause: "panic", step, msg: format!("{}::{} panicked: {} | input: {}", p.contract, p.entry, p.msg, p.input) });
         }
         // Config query equals the model (C12 admin, C13 trader/routes)
         match w.query(Which::Treasury, "{\"config\":{}}") {
             Ok(b) => {
                 let cfg: Value = serde_json::from_slice(&b).unwrap_or(Value::Null);
                 if cfg["admin"].as_str() != Some(m.admin.as_str()) {
-                    viol.push(Violation { prop: "C12", clause: "admin_changes_only_by_handover", step, msg: format!("treasury Config.admin is {} but the model has {}", cfg["admin"], m.admin) });
+                    viol.push(Violation { stop: true, prop: "C12", clause: "admin_changes_only_by_handover", step, msg: format!("treasury Config.admin is {} but the model has {}", cfg["admin"], m.admin) });
                 }
                 if cfg["trader"].as_str() != Some(m.trader.as_str()) || cfg["allowed_swap_routes"] != routes_json(&m.routes) {
-                    viol.push(Violation { prop: "C13", clause: "config_follows_admin_updates", step, msg: format!("treasury config {} differs from model trader {} routes {:?}", cfg, m.trader, m.routes) });
+                    viol.push(Violation { stop: true, prop: "C13", clause: "config_follows_admin_updates", step, msg: format!("treasury config {} differs from model trader {} routes {:?}", cfg, m.trader, m.routes) });
                 }
             }
-            Err(e) => viol.push(Violation { prop: "C16", clause: "queries_fail", step, msg: format!("treasury Config query failed: {}", e) }),
+            Err(e) => viol.push(Violation { stop: true, prop: "C16", clause: "queries_fail", step, msg: format!("treasury Config query failed: {}", e) }),
         }
         while seen_panics < w.panics.len() {
             let p = &w.panics[seen_panics];
             seen_panics += 1;
-            viol.push(Violation { prop: "C16", clause: "panic", step, msg: format!("{}::{} panicked: {} | input: {}", p.contract, p.entry, p.msg, p.input) });
+            viol.push(Violation { stop: true, prop: "C16", clause: "panic", step, msg: format!("{}::{} panicked: {} | input: {}", p.contract, p.entry, p.msg, p.input) });
         }
         hash.str(&format!("{:?}", std::mem::discriminant(op)));
         hash.u64(w.st.tx_no);
